@@ -10,9 +10,14 @@ pub trait Error: Sized { }
 
 //@ item src/serde_utils.rs | - | trait IntoSerializable
 /// Map to serializeable representation
-pub trait IntoSerializable {
+pub trait IntoSerializable/*+*/: Sized/*-*/ {
     type Output;
-    fn into_serializable(self) -> Self::Output;
+    /*+*/
+    /// what the type needs of `self` (the representation invariant, where it has one)
+    spec fn ser_ok(self) -> bool;
+    /*-*/
+    fn into_serializable(self) -> Self::Output
+        /*+*/requires self.ser_ok()/*-*/;
 }
 //@ end
 
